@@ -784,3 +784,5 @@ S("C11", "short-read-taken-for-eof", "C11-R8")
 S("C12", "deflate-fallback-only-on-first-call", "C12-R9")
 S("C13", "catcher-skips-close-when-response-closed", "C01-R6")
 S("C18", "key-freezes-mapping-keys-only", "C18-R4")
+for _n in (1, 3, 4, 5, 6):
+    B("C01", _n)
